@@ -287,6 +287,10 @@ def isNullable (o : JObj) : Bool :=
   | some (.bool true) => true
   | _ => false
 
+def isNoneV : PyVal → Bool
+  | .none => true
+  | _ => false
+
 /-- the `type` keyword of an object fails on the datum (then nothing else needs evaluating) -/
 def typeFails (o : JObj) (x : PyVal) : Bool :=
   match jGet o "type" with
@@ -300,7 +304,7 @@ def evalSchema (root : J) (ref : Option (List Nat)) : Nat → J → PyVal → Op
   | 0, _, _ => none
   | _ + 1, .bool b, _ => some b
   | n + 1, .obj o, x =>
-    if isNullable o && (match x with | .none => true | _ => false) then some true
+    if isNullable o && isNoneV x then some true
     else if typeFails o x then some false
     else allM (fun kv => evalKw (evalSchema root ref n) root ref o kv.1 kv.2 x) o
   | _ + 1, _, _ => none
